@@ -155,6 +155,19 @@ CLAIMED = {
                             "not covered."),
         technique="Lean 4 proof over traced converters + kernel-decided key cover + metamorphic unit oracle",
         design="5/C17"),
+    "C19": dict(
+        text=("Lean theorems about the trace of hotspot.calculate_temps (two direct and two statistical subfactor rows, "
+              "three cumulative terms; any ordered field; the square root is opaque and only assumed zero at zero, "
+              "non-negative and monotone on non-negatives, which Real.sqrt satisfies): unity subfactors reproduce inlet + "
+              "cumulative rises; with direct factors >= 1 and non-negative rises the result is never below nominal; it is "
+              "monotone in the output confidence level; the excess over the direct value times the input confidence level "
+              "is independent of that level; with statistical factors >= 1 each entry of coolant/clad/fuel adds a "
+              "non-negative rise to the previous one.  The real function is exercised on random tables of other shapes, on "
+              "all built-in tables through the reading/splitting/expression pipeline."),
+        note=COMMON_NOTE + ("T1 trace at one small shape; larger shapes and the CSV pipeline are covered by the oracle.  "
+                            "The clause that the rises are those of the pin and height of the nominal peak rests on C15."),
+        technique="Lean 4 proof (linarith/nlinarith over traced formula, abstract sqrt) + oracle on the real function",
+        design="5/C19"),
 }
 
 REASONS_PENDING = "check not built yet in this session (work in progress, see DESIGN.md section 12)"
